@@ -832,3 +832,33 @@ pub fn gen_relenum_sets() -> Vec<Vec<TableDef>> {
     }
     out.into_iter().filter_map(|m| normalized_slice(&m).filter(|x| gener::loader_accepts(x))).collect()
 }
+
+// ------------------------------------------------------------------ free text in comments and descriptions (C17)
+/// Texts for every way a column comment / table description is spliced into the three outputs (`# ...`, docstring,
+/// `/// ...`): line breaks of every kind, trailing / leading break, a leading '#', triple quotes, a trailing quote, a
+/// backslash (also at a line end), tabs, non-ASCII, empty and blank.
+pub const TEXT_SHAPES: &[&str] = &[
+    "line1\nline2", "a\r\nb", "a\rb", "trailing\n", "\nleading", "trailing cr\r", "two\n\nblank", "a\n# b", "x\\\ny",
+    "# hash first", "has \"\"\" triple", "ends with quote\"", "'single' and \"double\"", "back\\slash", "line end backslash\\",
+    "tab\there", "\u{c8fc}\u{c11d} \u{e9} \u{df}", "", "   ", "*/ not a block", "/// slashes", "}", "pub x: i32,", "class X:", "    indented",
+];
+
+/// Per text: one table that carries it as its description, one whose column carries it as comment, one with both.
+pub fn gen_text_sets() -> Vec<Vec<TableDef>> {
+    let mut out = vec![];
+    for (i, s) in TEXT_SHAPES.iter().enumerate() {
+        let mut a = base_table(format!("txt{}_d", i));
+        a.description = Some(s.to_string());
+        a.columns.push(col("v", ColumnType::Simple(SimpleColumnType::Text), true));
+        let mut b = base_table(format!("txt{}_c", i));
+        let mut c = col("v", ColumnType::Simple(SimpleColumnType::Text), true);
+        c.comment = Some(s.to_string());
+        b.columns.push(c.clone());
+        let mut both = base_table(format!("txt{}_b", i));
+        both.description = Some(s.to_string());
+        both.columns.push(c);
+        both.columns.push(col("after", int(), false));
+        out.push(vec![a, b, both]);
+    }
+    out.into_iter().filter_map(|m| normalized_slice(&m).filter(|x| gener::loader_accepts(x))).collect()
+}
